@@ -1288,6 +1288,9 @@ static void workload_alloc_base(const char* wl) {
   else if (!strcmp(wl, "huge")) { alloc_many(2, 17u << 20, 40u << 20, 0); alloc_many(1, 70u << 20, 100u << 20, 0);
                                   op_alloc_ex(A_malloc_aligned, 3u << 20, 32u << 20, 0, 0, 0); op_alloc_ex(A_zalloc_aligned, 100000, 64u << 20, 0, 0, 0); alloc_many(20, 1, 100000, 1); }
   else if (!strcmp(wl, "mt")) { run_worker_ex(0, 0, 0, 5, 0); alloc_many(80, 1, 20000, 1); run_worker(120, 1, 4096); run_worker(40, 4097, 300000); run_worker(2, 17u << 20, 20u << 20); }
+  else if (!strcmp(wl, "fieldfill")) {   /* many two-block objects in an arena of more than 64 blocks (MIMALLOC_ARENA_RESERVE=4GiB): claims next to and across
+                                            the boundary of the 64-bit fields of the arena bitmaps, with every residue of free blocks in front of it */
+                                  alloc_many(1 + (int)vf_randn(2), 100, 5000, 0); alloc_many(46, (size_t)40 << 20, ((size_t)40 << 20) + 4096, 0); alloc_many(4, (size_t)70 << 20, (size_t)90 << 20, 0); }
   else if (!strcmp(wl, "giant")) {   /* objects of many arena blocks: ranges that cross the 64-block fields of the arena bitmaps (needs MIMALLOC_ARENA_RESERVE >= 4 GiB) */
                                   alloc_many(2, (size_t)600 << 20, (size_t)700 << 20, 0); alloc_many(1, (size_t)1100 << 20, (size_t)1300 << 20, 0); alloc_many(1, (size_t)40 << 20, (size_t)70 << 20, 0); alloc_many(10, 1, 100000, 1); }
   else if (!strcmp(wl, "reuse")) {   /* memory of freed multi-block objects is purged and then re-used for ordinary segments (their headers and page tables land on
